@@ -1,7 +1,7 @@
 #!/bin/bash
 # tools/probe_refactor.sh <tree> : run every quick check against a behaviour-preserving refactoring of the library
 # (a scratch worktree); any VIOLATION here is a candidate FALSE ALARM of the machinery (or a bug of the refactoring).
-tree="$1"; cd /verif
+tree="$1"; cd "${VERIF_ROOT:-/verif}"
 export IXAI_REPO="$tree" VERIF_EVIDENCE_DIR="/tmp/evidence_probe_$$"
 for i in $(seq -w 1 20); do
   out=$(./check C$i --tier quick 2>&1); rc=$?
